@@ -522,6 +522,9 @@ fn judge_file(st: &mut Stats, rng: &mut Rng, workdir: &str, seed: u64, m: &Mesh1
     let g2 = gen_grid(rng, n2);
     let mut dst = Mesh1D::<f64, f64>::new(Vector::create(g2.fvec()), nv);
     for i in 0..n2 { for v in 0..nv { dst[i][v] = 777.0 + (i * 4 + v) as f64; } }
+    // the receiver is a LIVE mesh: it has already answered interpolation queries (last cell, last node) on its old grid
+    let _ = catch(|| dst.get_interpolated_vars(g2.f(n2 - 1)));
+    if n2 >= 2 { let _ = catch(|| dst.get_interpolated_vars(0.5 * (g2.f(n2 - 2) + g2.f(n2 - 1)))); }
     let r = call(st, "read1d", "f64", &desc, || dst.read(&fname));
     let _ = std::fs::remove_file(&fname);
     if r.is_none() { return; }
@@ -558,6 +561,14 @@ fn judge_file(st: &mut Stats, rng: &mut Rng, workdir: &str, seed: u64, m: &Mesh1
     for i in 0..n {
         if !judge(st, "read1d.nodes", nodes[i], g.r(i)) { return; }
         for v in 0..nv { if !judge(st, "read1d.vars", rows[i][v], Rat::int(s.data[i][v])) { return; } }
+    }
+    // with enough digits the round trip is exact (dyadic nodes with <= 9 binary places, integer data): the receiver must now
+    // interpolate and integrate exactly like the mesh that was written - at every node (last one included), in every cell
+    if p >= 10 && (0..n).all(|i| nodes[i] == g.f(i)) && (0..n).all(|i| (0..nv).all(|v| rows[i][v] == s.data[i][v] as f64)) {
+        for i in (0..n).rev() { judge_interp(st, &dst, g, &s.data, g.f(i), "node-after-read"); }
+        for i in 0..n - 1 { judge_interp(st, &dst, g, &s.data, 0.5 * (g.f(i) + g.f(i + 1)), "mid-after-read"); }
+        judge_trap1(st, &dst, g, s, "trapezium1d-after-read");
+        st.count("file:interpolation-after-read");
     }
 }
 
